@@ -46,7 +46,9 @@ Record fdesc := mk_fdesc {
   fd_default : option prim;         (* default=... of a scalar field *)
   fd_required : bool;               (* metadata "required" *)
   fd_mixed : bool;
-  fd_choices : list (str * ptype)   (* Elements: choice name, type *)
+  fd_choices : list (str * ptype);  (* Elements: choice name, type *)
+  fd_gen_name : option str          (* what the element / attribute name generator in force makes of the Python
+                                       field name (None: the default, identity) *)
 }.
 
 Record cdesc := mk_cdesc {
@@ -56,7 +58,8 @@ Record cdesc := mk_cdesc {
   cd_meta_ns : option str;          (* Meta.namespace (Some [] = stated, empty) *)
   cd_nillable : bool;               (* Meta.nillable *)
   cd_base : option cls;             (* base model class *)
-  cd_fields : list fdesc            (* own fields, declaration order *)
+  cd_fields : list fdesc;           (* own fields, declaration order *)
+  cd_gen_name : option str          (* what the element name generator in force makes of the class name *)
 }.
 
 Record mdesc := mk_mdesc {
@@ -103,10 +106,16 @@ Definition type_marker (q : qname) : wevent := WAttr spec_xsi_type (WP (PQName q
 (* effective namespace of a class occurring inside an element of namespace `ctx` *)
 Definition class_ns (c : cdesc) (ctx : option str) : option str :=
   match cd_meta_ns c with Some n => some_ns (Some n) | None => ctx end.
+(* explicit names (Meta.name, metadata "name", "wrapper") are used verbatim; the name generators
+   apply only to names derived from the Python class / field name *)
+Definition derived_class_name (c : cdesc) : str :=
+  match cd_gen_name c with Some ((_ :: _) as g) => g | _ => cd_name c end.
+Definition derived_field_name (f : fdesc) : str :=
+  match fd_gen_name f with Some ((_ :: _) as g) => g | _ => fd_name f end.
 Definition class_local (c : cdesc) : str :=
-  match cd_meta_name c with Some ((_ :: _) as n) => n | _ => cd_name c end.
+  match cd_meta_name c with Some ((_ :: _) as n) => n | _ => derived_class_name c end.
 Definition field_local (f : fdesc) : str :=
-  match fd_xml_name f with Some ((_ :: _) as n) => n | _ => fd_name f end.
+  match fd_xml_name f with Some ((_ :: _) as n) => n | _ => derived_field_name f end.
 (* namespace of a field's element / attribute, `cns` = effective class namespace *)
 Definition field_ns (f : fdesc) (cns : option str) : option str :=
   match fd_kind f with
@@ -395,7 +404,7 @@ Definition default_ok (f : fdesc) : bool :=
 
 Definition wf_field (D : mdesc) (f : fdesc) : bool :=
   (is_kind KText f || is_kind KElement f || is_kind KAttribute f)
-  && plain_name (fd_name f) && oplain_name (fd_xml_name f) && oplain_ns (fd_namespace f)
+  && plain_name (fd_name f) && plain_name (derived_field_name f) && oplain_name (fd_xml_name f) && oplain_ns (fd_namespace f)
   && ftype_ok D f && default_ok f
   && negb (fd_mixed f)
   && match fd_choices f with [] => true | _ => false end
@@ -427,7 +436,7 @@ Fixpoint seq_contiguous (seen : list N) (prev : option N) (l : list fdesc) : boo
 Definition reserved_attr (q : qname) : bool := str_eqb q spec_xsi_nil || str_eqb q spec_xsi_type.
 
 Definition wf_class (D : mdesc) (c : cdesc) : bool :=
-  plain_name (cd_name c) && oplain_name (cd_meta_name c) && oplain_ns (cd_meta_ns c)
+  plain_name (cd_name c) && plain_name (derived_class_name c) && oplain_name (cd_meta_name c) && oplain_ns (cd_meta_ns c)
   && match cd_base c with None => true | Some _ => false end
   && forallb (wf_field D) (cd_fields c)
   && distinct (map fd_name (cd_fields c))
